@@ -11,7 +11,10 @@
 
 namespace hx {
 
-using symx::Real;
+#ifndef HX_WEIGHT_TYPE
+#define HX_WEIGHT_TYPE symx::Real
+#endif
+typedef HX_WEIGHT_TYPE Real;
 typedef boost::adjacency_list<boost::vecS, boost::vecS, boost::undirectedS, boost::no_property,
         boost::property<boost::edge_weight_t, Real>> Graph;
 typedef boost::graph_traits<Graph>::edge_descriptor Edge;
@@ -40,10 +43,14 @@ inline Instance make_instance(const symx::Case &c, const std::string &prefix = "
         auto f = orc::split(c.at("fixed"), ',');
         for (size_t i = 0; i < f.size() && i < (size_t) m; i++) fixed[i] = atol(f[i].c_str());
     }
+    std::vector<double> fixedd;
+    if (c.count("fixedd")) for (auto &s : orc::split(c.at("fixedd"), ',')) fixedd.push_back(atof(s.c_str()));
     for (int i = 0; i < m; i++) {
         if (is_sym[i]) {
             I.w.push_back(Real::variable(prefix + std::to_string(i), true));
             I.symbolic.push_back(i);
+        } else if (i < (int) fixedd.size()) {
+            I.w.push_back(Real(fixedd[i]));
         } else {
             I.w.push_back(Real(fixed[i]));
         }
